@@ -82,6 +82,7 @@ type Stats struct {
 	Info        map[string]interface{} `json:"info,omitempty"`
 	Digests     []string               `json:"digests,omitempty"`
 	Cases       []json.RawMessage      `json:"digest_cases,omitempty"`
+	DigestTexts []string               `json:"digest_texts,omitempty"`
 }
 
 type recorder struct {
@@ -122,6 +123,7 @@ func (r *recorder) record(c interface{}, o Outcome) {
 		if os.Getenv("VERIF_KEEP_CASES") != "" {
 			b, _ := json.Marshal(c)
 			r.st.Cases = append(r.st.Cases, b)
+			r.st.DigestTexts = append(r.st.DigestTexts, o.Digest)
 		}
 	}
 	if o.Skip != "" {
